@@ -4,7 +4,7 @@
 # passes with it, the demonstration fails with it and passes without it. Prints one JSON line.
 S="$1"; BASE="${2:-head}"
 export GOFLAGS=-mod=mod GOPROXY=off GOSUMDB=off GOTOOLCHAIN=local
-REV=HEAD; [ "$BASE" = pinned ] && REV=a9d77d2
+REV=HEAD; [ "$BASE" = pinned ] && REV=a9d77d2; case "$BASE" in rev:*) REV=${BASE#rev:};; esac
 WT=$(mktemp -d /tmp/wt-XXXXXX); rmdir "$WT"
 git -C /repo worktree add --detach "$WT" $REV >/dev/null 2>&1 || { echo "{\"seed\":\"$S\",\"error\":\"worktree\"}"; exit 1; }
 cleanup() { git -C /repo worktree remove --force "$WT" >/dev/null 2>&1; rm -rf "$WT"; }
